@@ -261,8 +261,15 @@ def main():
     t0 = time.time()
     try:
         rc = props.run(a.prop, a.tier, seed, t0)
-    except Undecided as e:
-        log('UNDECIDED property=%s reason=%s' % (a.prop, str(e)[:3000]))
+    except Exception as e:
+        # this file runs as __main__ while props imports it as `check`: the two Undecided/LostAnchor classes differ,
+        # so match by name.  Anything else is an internal error of the machinery: undecided too, never an alarm.
+        kind = type(e).__name__
+        if kind not in ('Undecided', 'LostAnchor'):
+            import traceback
+            traceback.print_exc()
+            kind = 'internal error ' + kind
+        log('UNDECIDED property=%s reason=%s: %s' % (a.prop, kind, str(e)[:3000]))
         rc = 2
     sys.exit(rc)
 
